@@ -453,6 +453,78 @@ def clause_escape_carry(facts, rep, nss):
     rep.require(n >= 1, 'C10: SkipString not found')
 
 
+def clause_escape_flag(facts, rep, nss):
+    """SkipString reports whether the literal contains an escape (its callers decode a key only then).  The flag is
+    the variable that selects the "escaped" return value.  Decided: (1) it is monotone - after its initialisation it
+    is only ever set, never cleared or recomputed from a single block; (2) whenever an iteration of the vector loop
+    has to resolve escapes (the conditional arm that calls GetEscaped / masks the quote bits) the flag is set in that
+    same arm, so a backslash seen in an earlier block is never forgotten; (3) the scalar tail sets it before it steps
+    over a backslash pair."""
+    n = 0
+    for f in facts.functions:
+        if f.short != 'SkipString' or not any(ns in f.qn for ns in nss):
+            continue
+        rep.fn(f)
+        # the flag: condition of the conditional operator / branch that selects between two distinct constant returns
+        flag = None
+        for bid, B in f.blocks.items():
+            t = B.get('term')
+            if t and t.get('cls') == 'ConditionalOperator' and t.get('cond') is not None:
+                c = strip_expect(t['cond'])
+                if c is not None and c.get('k') == 'ref' and c.get('dk') == 'local':
+                    flag = c['id']
+        rep.require(flag is not None, 'C10: has-escape flag of SkipString not bound')
+        if flag is None:
+            continue
+
+        def flag_store(s_):
+            out = []
+            for y in walk(s_):
+                if y.get('k') == 'bin' and y['op'] in ('=', '|=', '&=', '^=') and strip(y['l']) is not None and strip(y['l']).get('id') == flag:
+                    out.append(y)
+            return out
+        # (1) monotone
+        for bid, i, st in f.stmts():
+            s_ = strip(st)
+            if s_ is None:
+                continue
+            for y in flag_store(s_):
+                n += 1
+                ok = (y['op'] == '=' and cval(y['r']) == 1) or (y['op'] == '|=' and cval(y['r']) == 1)
+                rep.check(ok, 'E2.escape-flag', f.qn, show(y), locline(y['loc']),
+                          'the has-escape flag may only be set to true: a value computed from the current block forgets escapes seen in earlier blocks', facts.config)
+        # (2) + (3): must-analysis, token killed at the loop heads
+        heads = set(bid for bid, B in f.blocks.items() if B.get('term') and B['term'].get('cls') in ('WhileStmt', 'ForStmt'))
+
+        def gen_stmt(st):
+            s_ = strip(st)
+            return ['set'] if s_ is not None and any(cval(y['r']) == 1 for y in flag_store(s_)) else []
+
+        def kill_edge(b, cond, sense):
+            return ['set'] if b in heads and sense is True else []
+        M = Must(f, gen_stmt=gen_stmt, kill_edge=kill_edge)
+        cursor = [p_['id'] for p_ in f.params if p_.get('name') == 'pos']
+        for bid, B in f.blocks.items():
+            for i, st in enumerate(B['stmts']):
+                s_ = strip(st)
+                if s_ is None:
+                    continue
+                resolves = any(y.get('k') == 'call' and y.get('cname') == 'GetEscaped' for y in walk(s_))
+                pair_skip = s_.get('k') == 'bin' and s_['op'] == '+=' and cursor and strip(s_['l']).get('id') == cursor[0] and cval(s_['r']) == 2
+                if not (resolves or pair_skip):
+                    continue
+                # the flag must be set in the same straight-line arm: before this statement since the loop head,
+                # or later in the same block
+                stt = M.at(bid, i)
+                if stt is None:
+                    continue
+                later = any(gen_stmt(x) for x in B['stmts'][i:])
+                n += 1
+                rep.check('set' in stt or later, 'E2.escape-flag', f.qn, ('escape resolution ' if resolves else 'backslash pair skipped ') + show(s_)[:60], locline(s_['loc']),
+                          'an iteration that meets an escape must record it in the has-escape flag (the caller decodes the key only when the flag is reported)', facts.config)
+    rep.require(n >= 4, 'C10: has-escape obligations of SkipString found: %d' % n)
+
+
 def run(rep, tier):
     configs = ['K1'] if tier == 'quick' else ['K1', 'K3', 'K4']
     for cfg in configs:
@@ -464,6 +536,7 @@ def run(rep, tier):
         clause_wrapper(facts, rep)
         clause_array_end(facts, rep)
         clause_key_decode(facts, rep)
+        clause_escape_flag(facts, rep, {'K1': ('::avx2::',), 'K3': ('::sse::',), 'K4': ('::avx2::', '::sse::')}[cfg])
         clause_escape_carry(facts, rep, {'K1': ('::avx2::',), 'K3': ('::sse::',), 'K4': ('::avx2::', '::sse::')}[cfg])
     rep.trust('clang 14 front end')
     rep.assumptions += [
